@@ -121,6 +121,39 @@ def _rule_default_eq(ctx, rep, values):
         if (ra == rb) != (impl.parse_str(a) == impl.parse_str(b)):
             rep.fail('c15eq:%r|%r' % (a, b), 'RuleDefault equality disagrees with printed-form equality', {'a': a, 'b': b})
         rep.case(key='eq%r%r' % (a, b), nontrivial=True)
+    # near misses: two rules that differ in the letter case of one leaf (or of a keyword, which must NOT matter)
+    enf = impl.Enf()
+    n_near = 0
+    for a in texts[:ctx.n(200, 3000)]:
+        words = a.split()
+        idx = [i for i, w in enumerate(words) if any(c.isalpha() for c in w)]
+        if not idx:
+            continue
+        i = ctx.rng.choice(idx)
+        w = words[i]
+        w2 = w.swapcase() if ctx.rng.random() < 0.5 else ''.join(c.upper() if j % 2 else c.lower() for j, c in enumerate(w))
+        b = ' '.join(words[:i] + [w2] + words[i + 1:])
+        pa, pb = impl.parse_str(a), impl.parse_str(b)
+        try:
+            eq = policy.RuleDefault('p', a) == policy.RuleDefault('p', b)
+        except Exception as ex:     # noqa
+            eq = 'raise:' + type(ex).__name__
+        if eq != (pa == pb):
+            rep.fail('c15eqcase:%r|%r' % (a, b), 'RuleDefault(p, %r) == RuleDefault(p, %r) is %s although they print as %r and %r'
+                     % (a, b, eq, pa, pb), {'a': a, 'b': b})
+        if eq is True:
+            enf.set_rules({'p': a, 'other': 'role:r0', 'n:x': 'role:r1'})
+            da = decisions(enf)
+            enf.set_rules({'p': b, 'other': 'role:r0', 'n:x': 'role:r1'})
+            db = decisions(enf)
+            if da != db:
+                rep.fail('c15eqdec:%r|%r' % (a, b), 'rule defaults %r and %r compare equal but decide differently (%r vs %r)'
+                         % (a, b, da, db), {'a': a, 'b': b})
+        n_near += 1
+        rep.stat('eq_case_variant:' + ('same_print' if pa == pb else 'different_print'))
+        rep.case(key='eqc%r%r' % (a, b), nontrivial=True)
+    rep.rules.append('%d pairs of rule defaults differing only in the letter case of one word (keyword: same rule; leaf: different '
+                     'rule): equality must follow the printed form, and equal defaults must decide alike' % n_near)
 
 
 def replay(ctx, rep, data):
